@@ -11,8 +11,8 @@ CONSTANTS Sigma,      \* symbols (ASCII codes) for the decoder model / decode ve
 Bytes == 0..255
 AlphaSyms == { Alpha[i] : i \in 0..63 }
 Sym68 == AlphaSyms \cup {PAD, 45, 95, 32}           \* alphabet, `=`, `-`, `_`, space
-FewBytes == {0, 63, 128, 255}
-FewSyms == {65, 81, 47, 43, PAD, 32}    \* A Q / + = space
+FewBytes == {0, 255}
+FewSyms == {65, 47, PAD, 32}    \* A / = space
 
 SeqsUpTo(S, n) == UNION { [1..k -> S] : k \in 0..n }
 Texts == SeqsUpTo(Sigma, MaxText)
